@@ -101,7 +101,12 @@ def events_of_block(P, f, bi, groups):
     ga = c.get('gargs') or []
     if re.search(r'syn::parse::ParseBuffer::<.*>::parse$|syn::parse::ParseBuffer::parse$', gp):
         tys = [g_ for g_ in ga if not g_.startswith("'")]
-        return [('parse', buffer_of(f, args[0], groups), tok_name(tys[-1] if tys else '?'))]
+        ty_ = tys[-1] if tys else '?'
+        m_ = re.match(r'^std::option::Option<(.*)>$', ty_)
+        if m_:
+            # `input.parse::<Option<Token![x]>>()` is `if input.peek(Token![x]) { Some(input.parse()?) } else { None }`
+            return [('optparse', buffer_of(f, args[0], groups), tok_name(m_.group(1)))]
+        return [('parse', buffer_of(f, args[0], groups), tok_name(ty_))]
     if re.search(r'ParseBuffer(::<.*>)?::(peek|peek2|peek3)$', gp) or re.search(r'Lookahead1(::<.*>)?::peek$', gp):
         which = gp.split('::')[-1]
         tk = args[1] if len(args) > 1 else None
@@ -234,9 +239,23 @@ def grammar_of(P, f):
     ev = {bi: events_of_block(P, f, bi, groups) for bi in f.normal_blocks()}
     # constructor at success exits
     exits = {}
+    exits_raw = {}
     for x in f.exits():
         if x['kind'] in ('ok', 'passthrough', 'other', 'some', 'ok_some'):
             exits[x['block']] = ('RETURN', cons(x['expr'], f))
+            exits_raw[x['block']] = x['expr']
+
+    def on_path(e, seen):
+        """a value merged from the arms of a match, as it is on this path: the one definition that lies on the path"""
+        def one(x):
+            if x and x[0] == 'var' and isinstance(x[1], int):
+                ds = f.defs().get(x[1], [])
+                if 2 <= len(ds) <= 6:
+                    here = [d for d in ds if d[0] in seen]
+                    if len(here) == 1:
+                        return f.expr_of_def(here[0])
+            return x
+        return map_tree(e, one)
     # back edges
     back = set()
     for (h, body, latches) in f.loops():
@@ -269,7 +288,10 @@ def grammar_of(P, f):
             return
         acc = acc + ev.get(b, [])
         if b in exits:
-            paths.add(tuple(acc + [exits[b]]))
+            ev_ = exits[b]
+            if 'var:' in str(ev_[1]):
+                ev_ = ('RETURN', cons(on_path(exits_raw[b], seen), f))
+            paths.add(tuple(acc + [ev_]))
             return
         t = f.term(b)
         if t['k'] == 'Return':
@@ -295,6 +317,15 @@ def grammar_of(P, f):
         if tm['k'] == 'SwitchInt':
             cond = f.expr_of_operand(tm['discr'])
             c0 = strip(cond)
+            if c0[0] == 'discr' and set(c0[2]) >= {'Some', 'None'} and any(
+                    isinstance(x, tuple) and x[0] == 'call' and re.search(r'ParseBuffer(::<.*>)?::parse$', x[3]) and re.search(r'::parse::<std::option::Option<', x[4] if len(x) > 4 else '')
+                    for x in walk(expand(f, c0[1]))):
+                # the match on the result of an optional parse: Some = the token was there
+                for v, tgt in tm['targets']:
+                    nm_ = c0[2][int(v)] if int(v) < len(c0[2]) else '?'
+                    lab[tgt] = 'yes' if nm_ == 'Some' else 'no'
+                if tm['otherwise'] not in lab:
+                    lab[tm['otherwise']] = 'no' if 'yes' in lab.values() else 'yes'
             neg = False
             if c0[0] == 'un' and c0[1] == 'Not':
                 c0, neg = strip(c0[2]), True
@@ -349,7 +380,11 @@ def fmt_ev(e):
 def extract(P):
     out = {}
     for f in parser_fns(P):
-        out[cidn(f.id)] = grammar_of(P, f)
+        ps = grammar_of(P, f)
+        # optional parse + match on its result, in the peek/parse spelling
+        ps = [re.sub(r'optparse\((\w+),([^()]*(?:\([^()]*\))?[^()]*)\) ((?:(?!optparse|yes|no)\S+ )*?)yes', r'peek(\1,\2) yes parse(\1,\2) \3', p_) for p_ in ps]
+        ps = [re.sub(r'optparse\((\w+),([^()]*(?:\([^()]*\))?[^()]*)\) ((?:(?!optparse|yes|no)\S+ )*?)no', r'peek(\1,\2) no \3', p_) for p_ in ps]
+        out[cidn(f.id)] = sorted(set(re.sub(r' +', ' ', p_).strip() for p_ in ps))
     return specialise(out)
 
 
